@@ -7,6 +7,7 @@ from __future__ import annotations
 import os
 import pickle
 import signal
+import struct
 import sys
 import traceback
 
@@ -49,3 +50,125 @@ def run_isolated(fn, *, timeout: int = 300):
     if code != 0 or not chunks:
         raise IsolatedError(f"isolated child exited with {code}")
     return pickle.loads(b"".join(chunks))
+
+
+def _read_exact(fd: int, n: int) -> bytes:
+    chunks = []
+    while n:
+        b = os.read(fd, min(n, 1 << 20))
+        if not b:
+            raise EOFError
+        chunks.append(b)
+        n -= len(b)
+    return b"".join(chunks)
+
+
+def _write_all(fd: int, data: bytes) -> None:
+    view = memoryview(data)
+    while view:
+        n = os.write(fd, view)
+        view = view[n:]
+
+
+class Zygote:
+    """A *pristine* process that answers requests, each in a child of its own.
+
+    ``run_isolated`` forks from the caller, so the child starts with every module-level variable,
+    memo and registry the session under test has filled in by then: good enough to keep a reference
+    computation from *leaving* state behind, not good enough to keep it from *seeing* state.  A
+    ``Zygote`` is forked before the session touches the library (imports only) and stays idle;
+    ``call(name, *args)`` makes it fork a grandchild that runs ``handlers[name](*args)`` and returns
+    ``("ok", value)`` or ``("exception", type, text, traceback)`` like ``run_isolated``.  What a
+    grandchild sees is what a freshly started process would see - this is the "next process that
+    uses the cache" and the "measurement on fresh caches" of the checks.  Arguments and results
+    travel pickled; handlers are module-level functions known at fork time.
+    """
+
+    def __init__(self, handlers: dict):
+        self.handlers = dict(handlers)
+        req_r, req_w = os.pipe()
+        res_r, res_w = os.pipe()
+        sys.stdout.flush()
+        sys.stderr.flush()
+        pid = os.fork()
+        if pid == 0:
+            code = 0
+            try:
+                os.close(req_w)
+                os.close(res_r)
+                self._serve(req_r, res_w)
+            except BaseException:  # noqa: BLE001
+                code = 3
+            finally:
+                os._exit(code)
+        os.close(req_r)
+        os.close(res_w)
+        self.pid, self.req_w, self.res_r = pid, req_w, res_r
+        self.calls = 0
+
+    def _serve(self, req_r: int, res_w: int) -> None:
+        signal.signal(signal.SIGALRM, signal.SIG_DFL)
+        while True:
+            try:
+                (n,) = struct.unpack("<I", _read_exact(req_r, 4))
+            except EOFError:
+                return
+            name, args, timeout = pickle.loads(_read_exact(req_r, n))
+            r, w = os.pipe()
+            pid = os.fork()
+            if pid == 0:
+                code = 0
+                try:
+                    os.close(r)
+                    os.close(req_r)
+                    os.close(res_w)
+                    signal.alarm(timeout)
+                    try:
+                        res = ("ok", self.handlers[name](*args))
+                    except BaseException as err:  # noqa: BLE001
+                        res = ("exception", type(err).__name__, str(err)[:500], traceback.format_exc()[-1500:])
+                    _write_all(w, pickle.dumps(res))
+                except BaseException:  # noqa: BLE001
+                    code = 3
+                finally:
+                    os._exit(code)
+            os.close(w)
+            chunks = []
+            while True:
+                b = os.read(r, 1 << 20)
+                if not b:
+                    break
+                chunks.append(b)
+            os.close(r)
+            _, status = os.waitpid(pid, 0)
+            code = os.waitstatus_to_exitcode(status)
+            blob = b"".join(chunks)
+            if code != 0 or not blob:
+                blob = pickle.dumps(("died", code))
+            _write_all(res_w, struct.pack("<I", len(blob)) + blob)
+
+    def call(self, name: str, *args, timeout: int = 300):
+        if name not in self.handlers:
+            raise KeyError(name)
+        blob = pickle.dumps((name, args, timeout))
+        self.calls += 1
+        try:
+            _write_all(self.req_w, struct.pack("<I", len(blob)) + blob)
+            (n,) = struct.unpack("<I", _read_exact(self.res_r, 4))
+            res = pickle.loads(_read_exact(self.res_r, n))
+        except (EOFError, OSError) as err:
+            raise IsolatedError(f"zygote gone: {err!r}") from err
+        if res[0] == "died":
+            raise IsolatedError(f"isolated child exited with {res[1]}")
+        return res
+
+    def close(self) -> None:
+        for fd in (self.req_w, self.res_r):
+            try:
+                os.close(fd)
+            except OSError:
+                pass
+        try:
+            os.waitpid(self.pid, 0)
+        except ChildProcessError:
+            pass
